@@ -388,6 +388,7 @@ def run_cases(ctx, cases, tg=None):
                 with open(os.path.join(wd, "default.cfg"), "w") as f:
                     f.write(cfg_text(c.dflt))
             if c.cfg is not None and c.cfg["state"] == "file":
+                os.makedirs(os.path.dirname(os.path.join(wd, c.cfg["file"])), exist_ok=True)      # a config file in a sub-directory (C13 layouts)
                 with open(os.path.join(wd, c.cfg["file"]), "w") as f:
                     # raw_text: a file taken over verbatim (the binary's own saved file), not written from items
                     f.write(c.cfg["raw_text"] if c.cfg.get("raw_text") is not None else cfg_text(c.cfg["items"], c.cfg.get("decor")))
